@@ -161,7 +161,12 @@ def main():
         tier = "quick"
         if "--tier" in a:
             i = a.index("--tier"); tier = a[i + 1]; del a[i:i + 2]
+        part = None
+        if "--part" in a:
+            i = a.index("--part"); part = tuple(int(x) for x in a[i + 1].split("/")); del a[i:i + 2]
         names = [x for x in a[1:] if not x.startswith("--")] or sorted(n for n in os.listdir(SEEDED) if os.path.isdir(os.path.join(SEEDED, n)))
+        if part:
+            names = [n for i, n in enumerate(names) if i % part[1] == part[0]]
         for name in names:
             mp = os.path.join(SEEDED, name, "meta.json")
             meta = json.load(open(mp))
